@@ -218,6 +218,42 @@ func cmdCheck(prop, tier string) int {
 		timeout = 60
 	}
 	runObligations(p, obls, timeout, thorough)
+	// every lemma that was available as an axiom in some query must itself be proved in this run
+	haveLemma := map[string]bool{}
+	for _, o := range obls {
+		if o.Kind == "lemma" {
+			haveLemma[strings.TrimPrefix(o.Name, "lemma.")] = true
+		}
+	}
+	for round := 0; round < 8; round++ {
+		need := map[string]bool{}
+		for _, o := range obls {
+			for _, ln := range o.LemmasUsed {
+				if !haveLemma[ln] {
+					need[ln] = true
+				}
+			}
+		}
+		if len(need) == 0 {
+			break
+		}
+		var extra []*Obligation
+		for li, l := range u.Specs.Lemmas {
+			if l.Axiom || !need[l.Name] {
+				continue
+			}
+			haveLemma[l.Name] = true
+			o, err := lemmaObligation(u, p, l, li)
+			if err != nil {
+				fn := writeReplay("lemma."+l.Name, map[string]any{"property": prop, "obligation": "lemma." + l.Name, "error": err.Error()})
+				viols = append(viols, violation{Obligation: "lemma." + l.Name, Replay: fn, NoInput: true})
+				continue
+			}
+			extra = append(extra, o)
+		}
+		runObligations(p, extra, timeout, thorough)
+		obls = append(obls, extra...)
+	}
 
 	// classify
 	known := map[string]*Finding{}
